@@ -11,7 +11,24 @@ package rebase
 //                                         file's own supplier table gives it;
 //                                         an empty <7> field gives no supplier,
 //                                         whatever the records before it have
-//   io/rebase.Export/post/json-roundtrip  json.Unmarshal(Export(m)) == m
+//   io/rebase.Export/post/json-roundtrip  json.Unmarshal(Export(m)) == m, an
+//                                         absent list coming back absent and an
+//                                         empty one empty
+//
+// ABSENT and EMPTY lists in the export. The JSON form tells an absent list (nil,
+// written as null) from an empty one (non-nil of length 0, written as []), and
+// with the tags of Enzyme both shapes survive Export and json.Unmarshal, for
+// Isoschizomers and for CommercialAvailability alike: there is no exception
+// (checked by experiment on the unchanged code base). So the round trip must
+// keep the shape (classes empty-collection-became-absent,
+// absent-collection-became-empty, judged on an entry that is equal otherwise).
+// Parse itself gives, on the unchanged code base, an absent
+// CommercialAvailability for an empty <7> field and the one-element list [""]
+// for an empty <2> field, never an empty non-nil list; the maps built by the
+// oracle therefore have the list of an empty field empty non-nil or absent by
+// record (c16ExpectedShapes), all four combinations for the two fields.
+// The records and suppliers clauses speak of what Parse reads, not of the JSON
+// form, and go on taking nil and empty as the same there.
 //
 // Inputs come from an independent format-31 writer (c16Write) that follows the
 // format description quoted at the top of rebase.go and the distributed sample:
@@ -548,6 +565,26 @@ func c16SameEnzyme(a, b Enzyme) bool {
 		eq(a.Isoschizomers, b.Isoschizomers) && eq(a.CommercialAvailability, b.CommercialAvailability)
 }
 
+// c16ListShape is the second look at two entries that c16SameEnzyme found
+// equal: it gives the class and the text of the first list of length 0 that
+// went in absent (nil) and came back empty (non-nil) or the other way round;
+// "", "" when both lists kept their shape.
+func c16ListShape(a, b Enzyme) (class, detail string) {
+	for _, f := range []struct {
+		name string
+		x, y []string
+	}{{"Isoschizomers", a.Isoschizomers, b.Isoschizomers}, {"CommercialAvailability", a.CommercialAvailability, b.CommercialAvailability}} {
+		switch {
+		case len(f.x) > 0 || (f.x == nil) == (f.y == nil):
+		case f.x == nil:
+			return "absent-collection-became-empty", f.name + ": absent (nil) in the map exported, empty (non-nil, length 0) after the round trip"
+		default:
+			return "empty-collection-became-absent", f.name + ": empty (non-nil, length 0) in the map exported, absent (nil) after the round trip"
+		}
+	}
+	return "", ""
+}
+
 func c16CheckExport(ex *verifRun, m map[string]Enzyme, what string) {
 	ex.Case(fmt.Sprintf("%s entries=%d", what, len(m)), len(m) > 0)
 	var out []byte
@@ -568,8 +605,34 @@ func c16CheckExport(ex *verifRun, m map[string]Enzyme, what string) {
 			ex.Fail("entry-missing", what, "key "+strconv.Quote(k)+" lost")
 		} else if !c16SameEnzyme(e, b) {
 			ex.Fail("entry-differs", what, fmt.Sprintf("key %q: %+v came back as %+v", k, e, b))
+		} else if class, detail := c16ListShape(e, b); class != "" {
+			if c16Recorded(ex, class) < 3 { // the text is costly to make and only the first three of a class are kept
+				detail = fmt.Sprintf("key %q: %s (every field equal otherwise); exported %#v, came back as %#v; JSON: %s", k, detail, e, b, c16Clip(c16EntryJSON(out, k)))
+			}
+			ex.Fail(class, what, detail)
 		}
 	}
+	// the map itself: an empty map is exported as {} and comes back non-nil
+	if m != nil && len(m) == 0 && len(back) == 0 && back == nil {
+		ex.Fail("empty-collection-became-absent", what, "the empty map came back as an absent one (nil): Export wrote "+c16Clip(string(out)))
+	}
+}
+
+// c16Recorded says how many failures of a class a run has counted so far.
+func c16Recorded(v *verifRun, class string) int {
+	v.mu.Lock()
+	defer v.mu.Unlock()
+	return v.perClass[v.Clause+"|"+class]
+}
+
+// c16EntryJSON cuts the value stored under key k out of an exported map ("" if
+// the text cannot be taken apart), for the detail of a failure.
+func c16EntryJSON(out []byte, k string) string {
+	var raw map[string]json.RawMessage
+	if json.Unmarshal(out, &raw) != nil {
+		return ""
+	}
+	return string(raw[k])
 }
 
 // c16Normal maps nil, [] and [""] lists to nil so that two results can be compared.
@@ -601,6 +664,28 @@ func c16Expected(d c16Doc) map[string]Enzyme {
 		}
 		for k := 0; k < len(r.letters); k++ {
 			e.CommercialAvailability = append(e.CommercialAvailability, table[r.letters[k]])
+		}
+		m[r.name] = e
+	}
+	return m
+}
+
+// c16ExpectedShapes is c16Expected with the lists of EMPTY <2> and <7> fields
+// in both shapes: in c16Expected they are all absent (nil); here, with
+// n = phase + the number of the record in the listing (from 0), the list of an
+// empty <2> field is empty non-nil when n is even and absent when n is odd, and
+// the list of an empty <7> field is empty non-nil when n/2 is even and absent
+// when it is odd - so over four records in a row: both lists empty, the
+// supplier list only, the isoschizomer list only, both absent.
+func c16ExpectedShapes(d c16Doc, phase int) map[string]Enzyme {
+	m := c16Expected(d)
+	for i, r := range d.recs {
+		e, n := m[r.name], phase+i
+		if r.iso == "" && n%2 == 0 {
+			e.Isoschizomers = []string{}
+		}
+		if r.letters == "" && (n/2)%2 == 0 {
+			e.CommercialAvailability = []string{}
 		}
 		m[r.name] = e
 	}
@@ -795,7 +880,10 @@ func TestVerifC16(t *testing.T) {
 		"even histories overwrite the file in place, odd ones rename a new file over the path; length and time are confirmed with os.Stat before each Read; a failure at the 2nd or 3rd step that Parse on the file's bytes does not show is classed path-reused-same-size-and-mtime (a, c), path-reused-same-size (b, e), path-reused-same-mtime (d), path-reused (f)"
 	rec := newVerifRun("C16", "io/rebase.Parse/post/records", dom+"; compared per record: key, name, isoschizomer list (an empty <2> field may come back as nil, [] or [\"\"]), recognition sequence, methylation site, organism, source, first reference; entry count; non-trivial = at least one record")
 	sup := newVerifRun("C16", "io/rebase.Parse/post/suppliers", dom+"; compared per record: CommercialAvailability == names of the <7> letters, in order, from the file's own table (nil and empty equal), so a record with an empty <7> field has no supplier whatever the records before it have (a supplier reported for an empty field is classed empty-supplier-field-after-suppliers when an earlier record of the listing has letters, else empty-supplier-field); non-trivial = at least one record with a supplier letter")
-	ex := newVerifRun("C16", "io/rebase.Export/post/json-roundtrip", "json.Unmarshal(Export(m)) == m (nil and empty lists equal) for m = the result of Parse on each listing above, and m = the map the listing describes built directly (suppliers decoded by the oracle), and the empty map; non-trivial = non-empty map")
+	ex := newVerifRun("C16", "io/rebase.Export/post/json-roundtrip", "json.Unmarshal(Export(m)) == m, entry by entry and field by field, for m = the result of Parse on each listing above, m = the map the listing describes built directly (suppliers decoded by the oracle), and the empty map; "+
+		"absent and empty lists: a list that is ABSENT in m (nil; null in the JSON text) must come back absent and one that is EMPTY (non-nil, length 0; [] in the text) must come back empty, for Isoschizomers and for CommercialAvailability - the JSON form tells the two apart and with the tags of Enzyme both shapes survive Export and json.Unmarshal; no exception: the experiment on the unchanged code base shows nil -> null -> nil and [] -> [] -> [] for both fields, and {} -> non-nil for the empty map; "+
+		"judged on an entry that is equal in every field otherwise, classes empty-collection-became-absent and absent-collection-became-empty; "+
+		"both shapes are supplied: Parse on the unchanged code base gives an absent CommercialAvailability for an empty <7> field and the one-element list [\"\"] for an empty <2> field (never an empty non-nil list), and in the described map the list of an empty <2> field is empty non-nil when n is even and absent when n is odd, the list of an empty <7> field empty non-nil when n/2 is even and absent when it is odd, n = number of the record in the listing from 0 + a phase 0..3 that goes round with the listings (four records in a row: both lists empty, supplier list only, isoschizomer list only, both absent; one-record listings get all four in turn); the empty map must come back as a non-nil map; non-trivial = non-empty map")
 	rec.Sampled()
 	sup.Sampled()
 	ex.Sampled()
@@ -823,7 +911,7 @@ func TestVerifC16(t *testing.T) {
 		if got != nil {
 			c16CheckExport(ex, got, "Parse result of "+c16Describe(d, nil))
 		}
-		c16CheckExport(ex, c16Expected(d), "described map of "+c16Describe(d, nil))
+		c16CheckExport(ex, c16ExpectedShapes(d, idx%4), "described map (lists of empty <2> and <7> fields empty non-nil or absent by record, phase "+strconv.Itoa(idx%4)+") of "+c16Describe(d, nil))
 	}
 	shape := func(rng *rand.Rand, n int) c16Shape {
 		sh := c16Shape{nRecs: n, indent: indents[rng.Intn(len(indents))], nSupp: rng.Intn(27), maxLett: 15, maxIso: 12, emptyBias: []int{0, 10, 50}[rng.Intn(3)], headerN: rng.Intn(41)}
